@@ -8,17 +8,20 @@ pub mod h3 {
    use crate::common::*;
    ascent! {
       pub struct Prog;
-      relation r0(i64, i64);
-      relation r1(i64, i64);
+      relation r0(i64);
+      relation r1(i64, i64, i64);
       relation r2(i64, i64);
       relation r3(i64, i64);
-      relation r4(i64, i64);
-      r3((v0 + 1), v0) <-- if let Some(v0) = Some(0), r0(v1, v2), if (v0 < 6);
-      r3(v2, v1) <-- r3(v0, v1), r1(v2, v1), let v3 = (*v2);
-      r3(v0, v1) <-- r2(v0, v1), r1(v1, v1);
-      r4(v0, v2) <-- r3(v0, v1), r4(v1, v2), r1(v2, v3);
-      r3(v0, v0) <-- r3(v0, 2);
-      r0(v0, v1) <-- r1(v0, 2), r4(v0, v1);
+      relation r4(i64);
+      relation r5(i64, i64);
+      r2(0, (v0 + 1)) <-- for v0 in 2..4, r0(v0) if (v0 <= 1), if (v0 < 6);
+      r3(v2, 1) <-- for v0 in [0, 0], r2(v1, 1) if (v0 < 3) let v2 = (v0 + 1), r0(v3), if (v2 <= 6);
+      r2(v0, ((*v0) + 1)) <-- r3(v0, 0), if let Some(v1) = Some(((*v0) + 1)), if ((*v0) < 6);
+      r4(v0) <-- r3(v0, v1), r3(v0, v0), r3(v1, v2);
+      r3(v0, (v0 + 1)) <-- let v0 = 3, r4(v0), if (v0 <= 6), if (v0 < 6);
+      r3(1, 3) <-- r4(0);
+      r3(v1, ((*v1) + 1)) <-- r2(v0, v1), r0(3), r3(((*v1) + 1), v2), if ((*v1) < 6);
+      r5(((*v0) + 1), ((*v0) + 1)) <-- r4(2), r4(v0), if ((*v0) < 6), if ((*v0) < 6);
    }
    pub struct Inst { p: Prog, pool: Option<ascent::rayon::ThreadPool> }
    pub fn make(pool: Option<usize>) -> Box<dyn Driver> {
@@ -29,7 +32,54 @@ pub mod h3 {
    impl Driver for Inst {
       fn load(&mut self, rel: usize, rows: &[Sexp], append: bool) -> Option<()> {
          match rel {
-         0 => { let v: Vec<(i64,i64,)> = parse_rows(rows)?; if append { self.p.r0.extend(v) } else { self.p.r0 = v } },
+         0 => { let v: Vec<(i64,)> = parse_rows(rows)?; if append { self.p.r0.extend(v) } else { self.p.r0 = v } },
+         1 => { let v: Vec<(i64,i64,i64,)> = parse_rows(rows)?; if append { self.p.r1.extend(v) } else { self.p.r1 = v } },
+         2 => { let v: Vec<(i64,i64,)> = parse_rows(rows)?; if append { self.p.r2.extend(v) } else { self.p.r2 = v } },
+         3 => { let v: Vec<(i64,i64,)> = parse_rows(rows)?; if append { self.p.r3.extend(v) } else { self.p.r3 = v } },
+         4 => { let v: Vec<(i64,)> = parse_rows(rows)?; if append { self.p.r4.extend(v) } else { self.p.r4 = v } },
+         5 => { let v: Vec<(i64,i64,)> = parse_rows(rows)?; if append { self.p.r5.extend(v) } else { self.p.r5 = v } },
+            _ => return None,
+         }
+         Some(())
+      }
+      fn run(&mut self) { match &self.pool { Some(pl) => { let p = &mut self.p; pl.install(|| p.run()) }, None => self.p.run() } }
+      fn run_here(&mut self) { self.p.run() }
+      fn run_timeout(&mut self, k: usize) -> Option<bool> { let _ = k; None }
+      fn dump(&self) -> String { vec![dump_rel(0, self.p.r0.iter().map(Row::render).collect()), dump_rel(1, self.p.r1.iter().map(Row::render).collect()), dump_rel(2, self.p.r2.iter().map(Row::render).collect()), dump_rel(3, self.p.r3.iter().map(Row::render).collect()), dump_rel(4, self.p.r4.iter().map(Row::render).collect()), dump_rel(5, self.p.r5.iter().map(Row::render).collect())].join(" | ") }
+      fn iters(&self) -> String { format!("iters {}", self.p.scc_iters.iter().map(|x| x.to_string()).collect::<Vec<_>>().join(" ")) }
+   }
+}
+
+#[allow(unused, non_snake_case, clippy::all)]
+pub mod h11 {
+   use ascent::*;
+   use ascent::aggregators::*;
+   use ascent::lattice::{Dual, set::Set};
+   use crate::common::*;
+   ascent! {
+      pub struct Prog;
+      relation r0(i64, i64, i64);
+      relation r1(i64, i64);
+      relation r2(i64, i64);
+      relation r3(i64, i64);
+      relation r4(i64, i64);
+      r2(0, ((*v0) + 1)) <-- r1(0, v0), if ((*v0) < 6);
+      r3(v0, (v0 + 1)) <-- let v0 = 0, r1(v0, (v0 + 0)) if (v0 <= 1), if (v0 <= 6), if (v0 < 6);
+      r4(v0, v0) <-- let v0 = 4, r2(v0, v0), let v1 = std::cmp::max(v0, 1), r3(2, v0), if (v0 <= 6);
+      r2(v0, v1) <-- r2(v0, v1) if ((*v0) < 3), r1(v1, v2) if ((*v2) != (*v1));
+      r4((v0 + 1), v0) <-- for v0 in 1..1, if (v0 < 6);
+      r0(v0, v1, 0) <-- r2(v0, v1);
+   }
+   pub struct Inst { p: Prog, pool: Option<ascent::rayon::ThreadPool> }
+   pub fn make(pool: Option<usize>) -> Box<dyn Driver> {
+      let pool = pool.map(|n| ascent::rayon::ThreadPoolBuilder::new().num_threads(n).build().unwrap());
+      let p = match &pool { Some(pl) => pl.install(|| Default::default()), None => Default::default() };
+      Box::new(Inst { p, pool })
+   }
+   impl Driver for Inst {
+      fn load(&mut self, rel: usize, rows: &[Sexp], append: bool) -> Option<()> {
+         match rel {
+         0 => { let v: Vec<(i64,i64,i64,)> = parse_rows(rows)?; if append { self.p.r0.extend(v) } else { self.p.r0 = v } },
          1 => { let v: Vec<(i64,i64,)> = parse_rows(rows)?; if append { self.p.r1.extend(v) } else { self.p.r1 = v } },
          2 => { let v: Vec<(i64,i64,)> = parse_rows(rows)?; if append { self.p.r2.extend(v) } else { self.p.r2 = v } },
          3 => { let v: Vec<(i64,i64,)> = parse_rows(rows)?; if append { self.p.r3.extend(v) } else { self.p.r3 = v } },
@@ -47,53 +97,6 @@ pub mod h3 {
 }
 
 #[allow(unused, non_snake_case, clippy::all)]
-pub mod h11 {
-   use ascent::*;
-   use ascent::aggregators::*;
-   use ascent::lattice::{Dual, set::Set};
-   use crate::common::*;
-   ascent! {
-      pub struct Prog;
-      relation r0(i64, i64);
-      relation r1(i64, i64);
-      relation r2(i64);
-      relation r3(i64);
-      relation r4(i64, i64, i64);
-      relation r5(i64, i64, i64);
-      r3(1) <-- r0(3, 0);
-      r3(v0) <-- if let Some(v0) = Some(4), r3(v1), r3(v2);
-      r2(v0) <-- r0(v0, v1), r0(((*v0) + 1), v2);
-      r4(v0, v2, v3) <-- r1(v0, v1), r1(v1, v2), r1(v2, v3);
-      r2(v1) <-- let v0 = 1, r0(v1, v0) if (v0 != 3), if let Some(v2) = Some(v0), r3(v2) if (v2 < 2);
-   }
-   pub struct Inst { p: Prog, pool: Option<ascent::rayon::ThreadPool> }
-   pub fn make(pool: Option<usize>) -> Box<dyn Driver> {
-      let pool = pool.map(|n| ascent::rayon::ThreadPoolBuilder::new().num_threads(n).build().unwrap());
-      let p = match &pool { Some(pl) => pl.install(|| Default::default()), None => Default::default() };
-      Box::new(Inst { p, pool })
-   }
-   impl Driver for Inst {
-      fn load(&mut self, rel: usize, rows: &[Sexp], append: bool) -> Option<()> {
-         match rel {
-         0 => { let v: Vec<(i64,i64,)> = parse_rows(rows)?; if append { self.p.r0.extend(v) } else { self.p.r0 = v } },
-         1 => { let v: Vec<(i64,i64,)> = parse_rows(rows)?; if append { self.p.r1.extend(v) } else { self.p.r1 = v } },
-         2 => { let v: Vec<(i64,)> = parse_rows(rows)?; if append { self.p.r2.extend(v) } else { self.p.r2 = v } },
-         3 => { let v: Vec<(i64,)> = parse_rows(rows)?; if append { self.p.r3.extend(v) } else { self.p.r3 = v } },
-         4 => { let v: Vec<(i64,i64,i64,)> = parse_rows(rows)?; if append { self.p.r4.extend(v) } else { self.p.r4 = v } },
-         5 => { let v: Vec<(i64,i64,i64,)> = parse_rows(rows)?; if append { self.p.r5.extend(v) } else { self.p.r5 = v } },
-            _ => return None,
-         }
-         Some(())
-      }
-      fn run(&mut self) { match &self.pool { Some(pl) => { let p = &mut self.p; pl.install(|| p.run()) }, None => self.p.run() } }
-      fn run_here(&mut self) { self.p.run() }
-      fn run_timeout(&mut self, k: usize) -> Option<bool> { let _ = k; None }
-      fn dump(&self) -> String { vec![dump_rel(0, self.p.r0.iter().map(Row::render).collect()), dump_rel(1, self.p.r1.iter().map(Row::render).collect()), dump_rel(2, self.p.r2.iter().map(Row::render).collect()), dump_rel(3, self.p.r3.iter().map(Row::render).collect()), dump_rel(4, self.p.r4.iter().map(Row::render).collect()), dump_rel(5, self.p.r5.iter().map(Row::render).collect())].join(" | ") }
-      fn iters(&self) -> String { format!("iters {}", self.p.scc_iters.iter().map(|x| x.to_string()).collect::<Vec<_>>().join(" ")) }
-   }
-}
-
-#[allow(unused, non_snake_case, clippy::all)]
 pub mod hl1 {
    use ascent::*;
    use ascent::aggregators::*;
@@ -104,11 +107,16 @@ pub mod hl1 {
       relation r0(i64, i64);
       relation r1(i64, i64);
       relation r2(i64);
-      lattice r3(Dual<i64>);
-      r3(Dual((*v0))) <-- r1(v0, 2);
-      r3(Dual(2)) <-- r3(v0), r0(v1, v1);
-      r2(v0) <-- r0(3, v0), r1(v0, v0);
-      r0(v0, v1) <-- r1(v0, v1) if ((*v0) < 5);
+      relation r3(i64, i64, i64);
+      lattice r4(i64, i64);
+      lattice r5(Set<i64>);
+      r4(v0, 2) <-- r0(v0, v0);
+      r4(v0, (*v0)) <-- r4(v0, v1), r2(v0);
+      r5(Set::singleton(0)) <-- r2(v0);
+      r5(v0) <-- r5(v0), r1(v1, 1);
+      r5(v0) <-- r5(v0), r5(v1);
+      r0(v0, v0) <-- r0(v0, v0) if ((*v0) < 6);
+      r1(v1, v1) <-- r4(3, v0), r2(v1);
    }
    pub struct Inst { p: Prog, pool: Option<ascent::rayon::ThreadPool> }
    pub fn make(pool: Option<usize>) -> Box<dyn Driver> {
@@ -122,7 +130,9 @@ pub mod hl1 {
          0 => { let v: Vec<(i64,i64,)> = parse_rows(rows)?; if append { self.p.r0.extend(v) } else { self.p.r0 = v } },
          1 => { let v: Vec<(i64,i64,)> = parse_rows(rows)?; if append { self.p.r1.extend(v) } else { self.p.r1 = v } },
          2 => { let v: Vec<(i64,)> = parse_rows(rows)?; if append { self.p.r2.extend(v) } else { self.p.r2 = v } },
-         3 => { let v: Vec<(Dual<i64>,)> = parse_rows(rows)?; if append { self.p.r3.extend(v) } else { self.p.r3 = v } },
+         3 => { let v: Vec<(i64,i64,i64,)> = parse_rows(rows)?; if append { self.p.r3.extend(v) } else { self.p.r3 = v } },
+         4 => { let v: Vec<(i64,i64,)> = parse_rows(rows)?; if append { self.p.r4.extend(v) } else { self.p.r4 = v } },
+         5 => { let v: Vec<(Set<i64>,)> = parse_rows(rows)?; if append { self.p.r5.extend(v) } else { self.p.r5 = v } },
             _ => return None,
          }
          Some(())
@@ -130,7 +140,7 @@ pub mod hl1 {
       fn run(&mut self) { match &self.pool { Some(pl) => { let p = &mut self.p; pl.install(|| p.run()) }, None => self.p.run() } }
       fn run_here(&mut self) { self.p.run() }
       fn run_timeout(&mut self, k: usize) -> Option<bool> { let _ = k; None }
-      fn dump(&self) -> String { vec![dump_rel(0, self.p.r0.iter().map(Row::render).collect()), dump_rel(1, self.p.r1.iter().map(Row::render).collect()), dump_rel(2, self.p.r2.iter().map(Row::render).collect()), dump_rel(3, self.p.r3.iter().map(Row::render).collect())].join(" | ") }
+      fn dump(&self) -> String { vec![dump_rel(0, self.p.r0.iter().map(Row::render).collect()), dump_rel(1, self.p.r1.iter().map(Row::render).collect()), dump_rel(2, self.p.r2.iter().map(Row::render).collect()), dump_rel(3, self.p.r3.iter().map(Row::render).collect()), dump_rel(4, self.p.r4.iter().map(Row::render).collect()), dump_rel(5, self.p.r5.iter().map(Row::render).collect())].join(" | ") }
       fn iters(&self) -> String { format!("iters {}", self.p.scc_iters.iter().map(|x| x.to_string()).collect::<Vec<_>>().join(" ")) }
    }
 }
